@@ -43,6 +43,9 @@ type StackDesc struct {
 	HdrLen int64     `json:"hdr_len"`
 	HdrCap int64     `json:"hdr_cap"`
 	Elems  []ValDesc `json:"elems"`
+	Sym    string     `json:"symbol,omitempty"`
+	Ljc    string     `json:"delimiter,omitempty"`
+	Enc    [][]string `json:"encap,omitempty"`
 }
 
 type CondDesc struct {
@@ -77,7 +80,11 @@ type Witness struct {
 const maxElems = 8
 
 func (c *Ctx) QueryExtra(g *Goal, extra []string, getvals []string) string {
-	q := c.Query(g, getvals)
+	return c.QueryExtraOpt(g, extra, getvals, qopt{})
+}
+
+func (c *Ctx) QueryExtraOpt(g *Goal, extra []string, getvals []string, qo qopt) string {
+	q := c.QueryOpt(g, getvals, qo)
 	if len(extra) == 0 {
 		return q
 	}
@@ -98,6 +105,7 @@ type modelSession struct {
 	pins []string
 	vals map[string]string
 	n    int
+	qo   qopt
 }
 
 func (m *modelSession) ask(wants []string) bool {
@@ -111,7 +119,7 @@ func (m *modelSession) ask(wants []string) bool {
 		return true
 	}
 	m.n++
-	q := m.res.Ctx.QueryExtra(m.g, m.pins, need)
+	q := m.res.Ctx.QueryExtraOpt(m.g, m.pins, need, m.qo)
 	r, _ := race(q, m.o.Workdir, fmt.Sprintf("%s_model%d", m.g.Name, m.n), m.o.Timeout, false)
 	if r.Status != "sat" {
 		if os.Getenv("GVC_DEBUG") != "" {
@@ -134,10 +142,45 @@ func (m *modelSession) ask(wants []string) bool {
 	return true
 }
 
+// askStr: value of a string term, small and printable when the counterexample allows it.
+func (m *modelSession) askStr(t string) (string, bool) {
+	if _, done := m.vals[t]; !done {
+		m.prefer(fmt.Sprintf("(and (<= 1 (str.len %s)) (<= (str.len %s) 2) (str.in_re %s (re.+ (re.range \"a\" \"z\"))))", t, t, t))
+	}
+	m.prefer(fmt.Sprintf("(and (<= (str.len %s) 3) (str.in_re %s (re.* (re.range \"a\" \"z\"))))", t, t))
+	if !m.ask([]string{t}) {
+		return "", false
+	}
+	return smtStr(m.vals[t])
+}
+
+// strSlice: the elements of a []string value.
+func (m *modelSession) strSlice(term, mem string, maxLen int64) ([]string, bool) {
+	wl := app("s-len", term)
+	m.prefer(fmt.Sprintf("(<= (s-len %s) 2)", term))
+	if !m.ask([]string{wl}) {
+		return nil, false
+	}
+	n, _ := smtInt(m.vals[wl])
+	if n < 0 || n > maxLen || (n > 0 && mem == "") {
+		return nil, false
+	}
+	out := []string{}
+	for k := int64(0); k < n; k++ {
+		t := fmt.Sprintf("(select (select %s (s-arr %s)) (+ (s-off %s) %d))", mem, term, term, k)
+		s, ok := m.askStr(t)
+		if !ok {
+			return nil, false
+		}
+		out = append(out, s)
+	}
+	return out, true
+}
+
 // prefer adds a constraint if the goal's counterexample survives it (small-model preference).
 func (m *modelSession) prefer(c string) {
 	m.n++
-	q := m.res.Ctx.QueryExtra(m.g, append(append([]string{}, m.pins...), c), nil)
+	q := m.res.Ctx.QueryExtraOpt(m.g, append(append([]string{}, m.pins...), c), nil, m.qo)
 	r, _ := race(q, m.o.Workdir, fmt.Sprintf("%s_pref%d", m.g.Name, m.n), m.o.Timeout, false)
 	if r.Status == "sat" {
 		m.pins = append(m.pins, c)
@@ -329,6 +372,44 @@ func (m *modelSession) stackDesc(hdr string, ref int64, depth int) (*StackDesc, 
 	if !m.noClosures(cfg) {
 		return nil, false
 	}
+	for _, f := range []string{"sym", "ljc"} {
+		if c := m.entry("F_nodeConfig_" + f); c != "" {
+			t := app("select", c, cfg)
+			s, ok := m.askStr(t)
+			if !ok {
+				dbg()
+				return nil, false
+			}
+			if f == "sym" {
+				d.Sym = s
+			} else {
+				d.Ljc = s
+			}
+		}
+	}
+	if c := m.entry("F_nodeConfig_enc"); c != "" {
+		enc := app("select", c, cfg)
+		ms, mstr := m.entry("Mem_Slice"), m.entry("Mem_Str")
+		m.prefer(fmt.Sprintf("(<= (s-len %s) 2)", enc))
+		if !m.ask([]string{app("s-len", enc)}) {
+			dbg()
+			return nil, false
+		}
+		n, _ := smtInt(m.vals[app("s-len", enc)])
+		if n > 4 || (n > 0 && (ms == "" || mstr == "")) {
+			dbg()
+			return nil, false
+		}
+		for k := int64(0); k < n; k++ {
+			inner := fmt.Sprintf("(select (select %s (s-arr %s)) (+ (s-off %s) %d))", ms, enc, enc, k)
+			xs, ok := m.strSlice(inner, mstr, 3)
+			if !ok {
+				dbg()
+				return nil, false
+			}
+			d.Enc = append(d.Enc, xs)
+		}
+	}
 	for k := int64(1); k < d.HdrLen && k <= maxElems; k++ {
 		v, ok := m.valDesc(app("sslot", mem, hdr, fmt.Sprint(k)), depth)
 		if !ok {
@@ -515,10 +596,11 @@ func (m *modelSession) valDesc(term string, depth int) (ValDesc, bool) {
 
 // concretise turns the model of a failed goal into a witness (inputs only).
 func (e *Engine) concretise(res *FuncResult, g *Goal, o runOpts) (*Witness, bool) {
-	if res.Fn == nil || g.Func != res.Key && !strings.HasPrefix(g.Name, res.Key) {
-		// goal of an inlined callee still replays through the top-level function
-	}
-	m := &modelSession{res: res, g: g, o: o, vals: map[string]string{}}
+	return e.concretiseOpt(res, g, o, qopt{})
+}
+
+func (e *Engine) concretiseOpt(res *FuncResult, g *Goal, o runOpts, qo qopt) (*Witness, bool) {
+	m := &modelSession{res: res, g: g, o: o, vals: map[string]string{}, qo: qo}
 	w := &Witness{Func: res.Key}
 	fn := res.Fn
 	for i, p := range fn.Params {
@@ -652,6 +734,17 @@ func (e *Engine) concretise(res *FuncResult, g *Goal, o runOpts) (*Witness, bool
 				}
 				a.Slice = append(a.Slice, vd)
 			}
+		case sv.T.Sort == SSlice && sv.Elem == SStr:
+			xs, ok := m.strSlice(term, m.entry("Mem_Str"), maxElems)
+			if !ok {
+				dbg()
+				return nil, false
+			}
+			var lits []string
+			for _, s := range xs {
+				lits = append(lits, strconv.Quote(s))
+			}
+			a.Lit = "[]string{" + strings.Join(lits, ", ") + "}"
 		case sv.T.Sort == SSlice && sv.Elem == SInt:
 			wl := app("s-len", term)
 			if !m.ask([]string{wl}) {
@@ -757,6 +850,23 @@ func (g *gen) mkStack(d *StackDesc) string {
 	fmt.Fprintf(&g.b, "\t%s := gvcMkStack(%d, %d, %d, %v, %v, %d, []any{%s})\n", v, d.Typ, d.Opt, d.Cap, d.Ord, d.Mutex, d.HdrCap, strings.Join(elems, ", "))
 	if d.Ppf {
 		fmt.Fprintf(&g.b, "\tgvcCfg(%s).ppf = func(...any) error { return nil }\n", v)
+	}
+	if d.Sym != "" {
+		fmt.Fprintf(&g.b, "\tgvcCfg(%s).sym = %s\n", v, strconv.Quote(d.Sym))
+	}
+	if d.Ljc != "" {
+		fmt.Fprintf(&g.b, "\tgvcCfg(%s).ljc = %s\n", v, strconv.Quote(d.Ljc))
+	}
+	if len(d.Enc) > 0 {
+		var es []string
+		for _, e := range d.Enc {
+			var xs []string
+			for _, s := range e {
+				xs = append(xs, strconv.Quote(s))
+			}
+			es = append(es, "{"+strings.Join(xs, ", ")+"}")
+		}
+		fmt.Fprintf(&g.b, "\tgvcCfg(%s).enc = [][]string{%s}\n", v, strings.Join(es, ", "))
 	}
 	if d.Ref > 0 {
 		g.stack[d.Ref] = v
@@ -1084,6 +1194,24 @@ func (e *Engine) runWitness(w *Witness, g *Goal) (string, bool) {
 
 // confirmPost re-checks a failed functional obligation with inputs and observed outputs pinned.
 func (e *Engine) confirmPost(res *FuncResult, g *Goal, w *Witness, out string, o runOpts) (bool, string) {
+	return e.confirmPostOpt(res, g, w, out, o, false)
+}
+
+// allDefAxioms: the defining equations of every recursive spec function (for evaluating concrete executions).
+func (e *Engine) allDefAxioms() string {
+	var b strings.Builder
+	for _, n := range sortedKeys(e.RecDefs) {
+		if ax, err := e.defAxiom(n); err == nil {
+			b.WriteString(ax + "\n")
+		}
+	}
+	return b.String()
+}
+
+// confirmPostOpt: with relaxed set (the obligation was undecided, the candidate came from the quantifier-free
+// relaxation) the consistency side is checked on the relaxation and the deciding side - the clause cannot hold
+// on the observed execution - on the full query with the recursive definitions available.
+func (e *Engine) confirmPostOpt(res *FuncResult, g *Goal, w *Witness, out string, o runOpts, relaxed bool) (bool, string) {
 	curOpVals = w.OpVals
 	pins := append([]string{}, w.Pins...)
 	x := res.X
@@ -1194,7 +1322,12 @@ func (e *Engine) confirmPost(res *FuncResult, g *Goal, w *Witness, out string, o
 	defer confirmMu.Unlock()
 	queryNoSoft = true // asserted goals and loop invariants are not facts about a concrete execution
 	defer func() { queryNoSoft = false }()
-	q := res.Ctx.QueryExtra(g, pins, nil)
+	qo1, qo2 := qopt{}, qopt{}
+	if relaxed {
+		qo1 = qopt{Relaxed: true}
+		qo2 = qopt{Defs: e.allDefAxioms()}
+	}
+	q := res.Ctx.QueryExtraOpt(g, pins, nil, qo1)
 	r, _ := race(q, o.Workdir, g.Name+"_confirm", o.Timeout, false)
 	if r.Status != "sat" {
 		return false, "pinned re-check (inputs and observed outputs fixed, clause negated): " + r.Status
@@ -1202,8 +1335,19 @@ func (e *Engine) confirmPost(res *FuncResult, g *Goal, w *Witness, out string, o
 	// the observation must decide the clause: with the same pins the clause itself must be unsatisfiable
 	pos := *g
 	pos.ExpectSat = true
-	q2 := res.Ctx.QueryExtra(&pos, pins, nil)
+	q2 := res.Ctx.QueryExtraOpt(&pos, pins, nil, qo2)
 	r2, _ := race(q2, o.Workdir, g.Name+"_confirm2", o.Timeout, false)
+	if r2.Status == "unsat" && relaxed {
+		// vacuity guard: the pinned execution itself must be consistent with the full theory
+		triv := *g
+		triv.ExpectSat = true
+		triv.Body = "true"
+		q3 := res.Ctx.QueryExtraOpt(&triv, pins, nil, qo2)
+		r3, _ := race(q3, o.Workdir, g.Name+"_confirm3", o.Timeout, false)
+		if r3.Status == "unsat" {
+			return false, "pinned re-check: the candidate execution contradicts the assumptions of the obligation (candidate discarded)"
+		}
+	}
 	if r2.Status == "unsat" {
 		return true, "pinned re-check: clause is false on the observed execution (negation sat, clause unsat)"
 	}
